@@ -91,7 +91,7 @@ PROPS = {
     "C13": {
         "n": {"quick": 64, "thorough": 1200}, "diff_is_failure": True, "judge": True, "trivial_outs": {"i1", ""}, "shards": 8, "run_timeout": 2400,
         "rule": "histories of 2-4 clients and an observer over 2-3 list keys (plus a string key) on a fresh server each: BLPOP/BRPOP with 0-3 keys (repeated and wrong-type keys, non-bulk key) and timeouts 0 / 0.3 / 0.9 s / -0 / 0.0 / refused (negative, nan, inf, 1e10, 1e300, text, empty) on a logical clock with a 600 ms grid, LPUSH/RPUSH of 1-3 unique elements, LPOP/RPOP, LLEN, pipelined LPUSH+LPOP(+RPUSH,LLEN) in one write, pushes and pops inside MULTI/EXEC (one write or one by one), requests written behind a blocking call in the same write, requests written to a blocked connection, SELECT 1, keys turning into strings / deleted, clients disconnecting (blocked or not), steps of the clock; requests are written without waiting, the event loop is sequenced through VERIF ITER, after every write the VERIF BLOCKING dump (wake-queue length, waiting connections per key in queue order) is compared with the model's registry, every frame received by every client is compared, final LRANGE/TYPE/KEYS of both databases; one evaluation = one write, read, dump or reply compared with the model",
-        "explanation": "theorems: registry/connection-state agreement, conservation (multiset equation per list) under no-disconnect-while-blocked, FIFO queue discipline per key, no duplicate delivery, nil only at or after the deadline and never for timeout 0, no leftover registration, one reply per blocking call, no crash in list-command histories - invariants of the event-loop transition system over all histories; refutation witnesses for blocked-disconnect, pipelined-behind-block, blocking-in-exec, wrongtype-at-wake, requeue-at-back; tie: differential multi-client histories with hook-level comparison; property oracle = multiset equation on the implementation's outputs",
+        "explanation": "theorems: registry/connection-state agreement, conservation (multiset equation per list) under no-disconnect-while-blocked, FIFO queue discipline per key, no duplicate delivery, nil only at or after the deadline and never for timeout 0, no leftover registration, one reply per blocking call, no crash in list-command histories, no stranding for single-key blocking pops (safety half of prompt service) - invariants of the event-loop transition system over all histories; refutation witnesses for blocked-disconnect, pipelined-behind-block, blocking-in-exec, wrongtype-at-wake, requeue-at-back, reregister-no-recheck; tie: differential multi-client histories with hook-level comparison; property oracle = multiset equation on the implementation's outputs",
         "trusted_base": SRV_TB + ["the VERIF hook (cfg ferrous_verif): ITER (event-loop iteration counter) and BLOCKING (registry dump); CLIENT ID (maps server connection ids to the history's connections)",
                                   "oracle: the timeout text of BLPOP/BRPOP is converted to milliseconds by the harness with Rust's f64 parser and Duration::from_secs_f64, as the server does"],
         "assumptions": ["no password configured (a Blocked connection is not Authenticated for the gate)", "at most one connection at a time has requests waiting behind a blocking call (the order in which the server reads two such connections is a HashMap iteration order)",
